@@ -5,6 +5,7 @@ import (
 	"context"
 	"encoding/base64"
 	"encoding/json"
+	"errors"
 	"fmt"
 	"net/http"
 	"testing"
@@ -14,7 +15,10 @@ import (
 	"github.com/google/certificate-transparency-go/client"
 	"github.com/google/certificate-transparency-go/jsonclient"
 	"github.com/google/certificate-transparency-go/trillian/ctfe"
+	"github.com/google/certificate-transparency-go/trillian/ctfe/cache"
 	"github.com/google/certificate-transparency-go/x509"
+	"google.golang.org/grpc/codes"
+	"google.golang.org/grpc/status"
 	"pgregory.net/rapid"
 
 	"verif/internal/ctfex"
@@ -36,6 +40,17 @@ type FidCase struct {
 	ClockMs    int64
 	Indirect   bool // external issuance-chain storage (in-memory) instead of chains inside the backend leaf
 	Metrics    bool // process option --getentries_metrics: reads are also counted; what is served must not change
+	// Huge: three-megabyte certificates, so that one range holds more than 8 MiB of entries
+	Huge bool
+	// CacheLRU > 0 (external storage): an LRU issuance-chain cache of that many entries instead of none
+	CacheLRU int
+	// Twin (external storage): a second log with its own backend and its own chain storage, configured alike,
+	// is served by the same process and receives every submission right after the first log
+	Twin bool
+	// FailGets (external storage): these chain-storage reads, counted from the first read request, fail with
+	// the error class FailKind; a read request that met a fault may be refused, but what it serves must be right
+	FailGets []int
+	FailKind int
 }
 
 type FidItem struct {
@@ -72,6 +87,30 @@ func genFid(t *rapid.T) FidCase {
 	c.ClockMs = rapid.Int64Range(1, 4102444800000).Draw(t, "clock")
 	c.Indirect = rapid.IntRange(0, 2).Draw(t, "indirect") == 0
 	c.Metrics = rapid.IntRange(0, 2).Draw(t, "metrics") == 0
+	if c.Indirect {
+		if rapid.Bool().Draw(t, "lru") {
+			c.CacheLRU = rapid.SampledFrom([]int{1, 1, 2, 64}).Draw(t, "lrusize")
+		}
+		c.Twin = rapid.IntRange(0, 2).Draw(t, "twinlog") == 0
+		for i, nf := 0, rapid.IntRange(0, 2).Draw(t, "nfail"); i < nf; i++ {
+			c.FailGets = append(c.FailGets, rapid.IntRange(0, 12).Draw(t, "failget"))
+		}
+		c.FailKind = rapid.IntRange(0, 4).Draw(t, "failkind")
+	}
+	if rapid.IntRange(0, 24).Draw(t, "huge") == 0 {
+		// big, big, big, small, big, small: the whole tree in one range is well over 8 MiB
+		c.Huge, c.Max, c.BackendMax, c.Twin = true, 1000, 0, false
+		c.Items = nil
+		for i, big := range []bool{true, true, true, false, true, false} {
+			sp := world.GenSpec(t, fmt.Sprintf("h%d", i))
+			sp.Quirky = false
+			if big {
+				sp.Bulk = rapid.IntRange(2300, 2900).Draw(t, "hugekib") << 10
+			}
+			c.Items = append(c.Items, FidItem{Spec: &sp})
+		}
+		c.Reads = append([][2]int{{0, 5}, {1, 4}}, c.Reads...)
+	}
 	return c
 }
 
@@ -98,14 +137,38 @@ func checkFid(t *testing.T, c FidCase) (v harness.Verdict) {
 	be.MaxLeavesPerRange = c.BackendMax
 	clock := ctfex.NewClock(time.UnixMilli(c.ClockMs).Add(123456 * time.Nanosecond))
 	o := ctfex.Opts{LogKey: keys.Pick("p256", 1), Roots: world.Roots(), Backend: be, Clock: clock}
+	var store *memstore.Store
 	if c.Indirect {
-		o.ChainStorage = memstore.New()
+		store = memstore.New()
+		o.ChainStorage = store
 		v.Class("external-chain-storage")
+		if c.CacheLRU > 0 {
+			o.Inst = func(io *ctfe.InstanceOptions) {
+				io.CacheType, io.CacheOption = cache.LRU, cache.Option{Size: c.CacheLRU, TTL: time.Hour}
+			}
+			v.Class("lru-chain-cache")
+		}
+	}
+	if c.Huge {
+		v.Class("range-over-8MiB")
 	}
 	inst, err := ctfex.New(o)
 	if err != nil {
 		t.Fatalf("instance: %v", err)
 	}
+	// the twin log: same configuration, its own backend, chain storage and key
+	var twin *ctfex.Instance
+	var twinBE *reflog.Log
+	if c.Indirect && c.Twin {
+		twinBE = reflog.New(6963, 1)
+		o2 := o
+		o2.LogKey, o2.Backend, o2.ChainStorage, o2.Prefix, o2.LogID = keys.Pick("p256", 4), twinBE, memstore.New(), "twin", 6963
+		if twin, err = ctfex.New(o2); err != nil {
+			t.Fatalf("twin instance: %v", err)
+		}
+		v.Class("twin-log-with-own-chain-storage")
+	}
+	twinWant := map[string][]byte{}
 	type stored struct {
 		built *world.Built
 		ts    uint64
@@ -153,6 +216,35 @@ func checkFid(t *testing.T, c FidCase) (v harness.Verdict) {
 		} else {
 			v.Class("duplicate-submission")
 		}
+		if twin != nil {
+			time.Sleep(300 * time.Microsecond) // the first log's best-effort cache write runs in the background
+			if rsp := twin.Post(path, addChainBody(b.Submit)); rsp.Status != 200 {
+				v.Failf("valid-chain-refused", "item %d: twin log: %s answered %d: %s", i, path, rsp.Status, rsp.Body)
+				return v
+			}
+			tb := twinBE.Size()
+			twinBE.Sequence(-1, uint64(i+2))
+			if twinBE.Size() == tb+1 {
+				twinWant[string(twinBE.Leaf(tb).LeafValue)] = b.ExtraData()
+			}
+		}
+	}
+	if twin != nil {
+		// every entry of the twin log must be readable from ITS storage, whatever the first log cached meanwhile
+		twinBE.Publish(99)
+		time.Sleep(300 * time.Microsecond)
+		for i := 0; i < twinBE.Size(); i++ {
+			rsp := twin.Get("/ct/v1/get-entries", fmt.Sprintf("start=%d&end=%d", i, i))
+			var ger ct.GetEntriesResponse
+			if rsp.Status != 200 || json.Unmarshal(rsp.Body, &ger) != nil || len(ger.Entries) != 1 {
+				v.Failf("twin-entry-unreadable", "the second log of the process cannot serve its entry %d: %d %s", i, rsp.Status, rsp.Body)
+				continue
+			}
+			lv := twinBE.Leaf(i).LeafValue
+			if w, ok := twinWant[string(lv)]; !bytes.Equal(ger.Entries[0].LeafInput, lv) || (ok && !bytes.Equal(ger.Entries[0].ExtraData, w)) {
+				v.Failf("twin-entry-bytes", "the second log of the process serves other bytes than stored for entry %d", i)
+			}
+		}
 	}
 	be.Publish(99)
 	size := be.Size()
@@ -165,10 +257,50 @@ func checkFid(t *testing.T, c FidCase) (v harness.Verdict) {
 		t.Fatalf("client: %v", err)
 	}
 	ctx := context.Background()
+	getCalls := func() int {
+		if store == nil {
+			return 0
+		}
+		_, g := store.Calls()
+		return g
+	}
+	if store != nil && len(c.FailGets) > 0 {
+		base := getCalls()
+		failErr := []error{errors.New("injected storage failure"), fmt.Errorf("storage: %w", context.DeadlineExceeded), status.Error(codes.DeadlineExceeded, "injected"), fmt.Errorf("storage: %w", context.Canceled), status.Error(codes.Unavailable, "injected")}[c.FailKind%5]
+		fail := map[int]bool{}
+		for _, k := range c.FailGets {
+			fail[base+k] = true
+		}
+		store.FailGet = func(n int) error {
+			if fail[n] {
+				return failErr
+			}
+			return nil
+		}
+	}
+	faultIn := func(from, to int) bool {
+		if store == nil || store.FailGet == nil {
+			return false
+		}
+		for n := from; n < to; n++ {
+			if store.FailGet(n) != nil {
+				return true
+			}
+		}
+		return false
+	}
 	for _, r := range c.Reads {
 		start := r[0] % size
 		end := start + r[1]
+		g0 := getCalls()
 		rsp := inst.Get("/ct/v1/get-entries", fmt.Sprintf("start=%d&end=%d", start, end))
+		if rsp.Status != 200 && faultIn(g0, getCalls()) {
+			v.Class("storage-read-fault-surfaced-as-error")
+			continue
+		}
+		if rsp.Status == 200 && faultIn(g0, getCalls()) {
+			v.Class("answered-200-despite-storage-read-fault")
+		}
 		if rsp.Status != 200 {
 			v.Failf("in-range-read-refused", "get-entries %d..%d on size %d: %d %s", start, end, size, rsp.Status, rsp.Body)
 			continue
@@ -185,8 +317,11 @@ func checkFid(t *testing.T, c FidCase) (v harness.Verdict) {
 			v.NonTrivial = true
 			v.Class("short-answer")
 		}
+		g1 := getCalls()
 		raw, rerr := lc.GetRawEntries(ctx, int64(start), int64(end))
-		if rerr != nil {
+		if faultIn(g1, getCalls()) {
+			raw, rerr = nil, errors.New("storage fault met") // judged above through the direct call only
+		} else if rerr != nil {
 			v.Failf("client-raw", "GetRawEntries(%d,%d): %v", start, end, rerr)
 		} else if len(raw.Entries) != len(ger.Entries) {
 			v.Failf("client-raw-count", "GetRawEntries returned %d entries, direct call %d", len(raw.Entries), len(ger.Entries))
@@ -258,7 +393,12 @@ func checkFid(t *testing.T, c FidCase) (v harness.Verdict) {
 		}
 		// get-entry-and-proof for the first index of the read, at a drawn tree size and at the smallest one
 		for _, n := range []int{start + 1 + (r[1] % (size - start)), start + 1} {
+			g2 := getCalls()
 			eap := inst.Get("/ct/v1/get-entry-and-proof", fmt.Sprintf("leaf_index=%d&tree_size=%d", start, n))
+			if eap.Status != 200 && faultIn(g2, getCalls()) {
+				v.Class("storage-read-fault-surfaced-as-error")
+				continue
+			}
 			if eap.Status != 200 {
 				v.Failf("entry-and-proof-refused", "get-entry-and-proof(%d,%d) on size %d: %d %s", start, n, size, eap.Status, eap.Body)
 				continue
